@@ -151,6 +151,31 @@ Theorem non_negative_tucker_real (T : tensor R) eps stop nm n_modes n core Fs :
   vnn (data (fst out)) /\ Forall mnn (snd out).
 Proof. intros. apply non_negative_tucker_nonneg; auto. apply nrm2_nonneg. Qed.
 
+(* ------------------------------------------------------------------ active_set_nnls, the statement-by-statement transcription:
+   whatever tl.solve returns (any function, failing or not), whatever the masks and the gradient *)
+Lemma clipped_vnn (s : list R) : vnn (map (clip_min Rops 0) s).
+Proof. apply Forall_map_any. intros y. pose proof (clip_min_ge 0 y). lra. Qed.
+Lemma as_loop_vnn solve Utm UtU tol : forall fuel it x g p a out,
+  vnn x -> as_loop Rops solve Utm UtU tol fuel it x g p a = Some out -> vnn out.
+Proof.
+  induction fuel as [|f IH]; intros it x g p a out Hx H.
+  - simpl in H. inversion H; subst; exact Hx.
+  - simpl in H. destruct (as_body Rops solve Utm UtU it x g p a) as [[[s2 p2] a2]|]; [|discriminate].
+    destruct (as_done Rops tol a2 _).
+    + inversion H; subst. apply clipped_vnn.
+    + eapply IH; [|exact H]. apply clipped_vnn.
+Qed.
+Theorem active_set_nnls_nonneg solve Utm UtU tol x0 n out :
+  active_set_nnls Rops solve Utm UtU tol x0 n = Some out -> vnn x0 \/ (0 < n)%nat -> vnn out.
+Proof.
+  unfold active_set_nnls. intros H [Hx|Hn]; [eapply as_loop_vnn; eauto|].
+  destruct n as [|f]; [lia|]. simpl in H.
+  destruct (as_body Rops solve Utm UtU true x0 _ _ _) as [[[s2 p2] a2]|]; [|discriminate].
+  destruct (as_done Rops tol a2 _).
+  - inversion H; subst. apply clipped_vnn.
+  - eapply as_loop_vnn; [|exact H]. apply clipped_vnn.
+Qed.
+
 (* ------------------------------------------------------------------ what does NOT hold (executed over Q, the same functions) *)
 From Coq Require Import QArith.
 Definition qneg (x : Q) : Prop := Qle_bool 0 x = false.
